@@ -148,17 +148,24 @@ theorem literal_roundtrip_partial :
     (try intro hv) <;> simp [LitOk, litPieces, floatPieces, litTooLarge, *] <;> omega
 
 /-- **Negation for negative literals, all of them.** A negative 64-bit integer literal and a float literal with the
-sign bit set (other than zero) print as `-` followed by the non-negative literal — two tokens, which the parser reads
-as `UnaryOperation(Minus, …)`; negative zero prints as the token of positive zero. (Real code: known findings.) -/
+sign bit set — negative zero included since 1157dad — print as `-` followed by the non-negative literal: two tokens,
+which the parser reads as `UnaryOperation(Minus, …)`. (Real code: known findings.) -/
 theorem negative_literals_break :
     (∀ v, v ≠ 0 → (litPieces ⟨.IntSigned64, true, v⟩).map toks = some [.p .Minus, .lit ⟨.IntSigned64, false, v⟩]) ∧
-    (∀ bits q, eighths? 8 23 bits = some q → q ≠ 0 →
-      (litPieces ⟨.Float32, true, bits⟩).map toks = some [.p .Minus, .lit ⟨.Float32, false, bits⟩]) ∧
-    (litPieces ⟨.Float32, true, 0⟩).map toks = some [.lit ⟨.Float32, false, 0⟩] ∧
+    (∀ bits q, eighths? 8 23 bits = some q →
+      (litPieces ⟨.Float32, true, bits⟩).map toks = some [.p .Minus, .lit ⟨.Float32, false, bits⟩] ∧
+      (litPieces ⟨.Float16, true, bits⟩).map toks = some [.p .Minus, .lit ⟨.Float16, false, bits⟩]) ∧
+    (∀ bits q, eighths? 11 52 bits = some q →
+      (litPieces ⟨.FloatUntyped, true, bits⟩).map toks = some [.p .Minus, .lit ⟨.FloatUntyped, false, bits⟩] ∧
+      (litPieces ⟨.Float64, true, bits⟩).map toks = some [.p .Minus, .lit ⟨.Float64, false, bits⟩]) ∧
+    (litPieces ⟨.Float32, true, 0⟩).map toks = some [.p .Minus, .lit ⟨.Float32, false, 0⟩] ∧
     LitOk ⟨.IntSigned64, true, 5⟩ = false ∧ LitOk ⟨.Float32, true, 0⟩ = false := by
-  refine ⟨fun v hv => ?_, fun bits q h hq => ?_, ?_, ?_, ?_⟩
+  refine ⟨fun v hv => ?_, fun bits q h => ⟨?_, ?_⟩, fun bits q h => ⟨?_, ?_⟩, ?_, ?_, ?_⟩
   · simp [litPieces, hv, minusPiece]
-  · simp [litPieces, floatPieces, h, hq, minusPiece]
+  · simp [litPieces, floatPieces, h, minusPiece]
+  · simp [litPieces, floatPieces, h, minusPiece]
+  · simp [litPieces, floatPieces, h, minusPiece]
+  · simp [litPieces, floatPieces, h, minusPiece]
   · decide
   · decide
   · decide
